@@ -30,8 +30,13 @@ type RR1 = v1::ReceiveResult<CompiledFunction, (), Ctx1>;
 
 #[derive(Clone, Debug)]
 struct Step {
-    /// the invoke is made inside a called function (one more frame on the function-frame stack)
-    nested: bool,
+    /// nested calls below the entrypoint when `invoke` is called (0 = in the entrypoint itself)
+    depth: u32,
+    /// nested calls made right after the resume, at that depth (0 = none): the call-depth budget
+    /// (`activation_frames`) must have survived the interrupt
+    recurse: u32,
+    /// balance reported by a successful response
+    balance: u64,
     /// response: 0 = success without data, 1 = success with data, 2..=12 = InvokeFailure number 1..=11,
     /// 13 = ContractReject { code, data }
     resp: u8,
@@ -47,13 +52,15 @@ struct Step {
     contract_write: Option<u32>,
 }
 
-const IMPORTS: [(&str, &[VT], Option<VT>); 6] = [
+const IMPORTS: [(&str, &[VT], Option<VT>); 8] = [
     ("invoke", &[VT::I32, VT::I32, VT::I32], Some(VT::I64)),
     ("state_create_entry", &[VT::I32, VT::I32], Some(VT::I64)),
     ("state_lookup_entry", &[VT::I32, VT::I32], Some(VT::I64)),
     ("state_entry_write", &[VT::I64, VT::I32, VT::I32, VT::I32], Some(VT::I32)),
     ("state_entry_read", &[VT::I64, VT::I32, VT::I32, VT::I32], Some(VT::I32)),
     ("write_output", &[VT::I32, VT::I32, VT::I32], Some(VT::I32)),
+    ("log_event", &[VT::I32, VT::I32], Some(VT::I32)),
+    ("get_receive_self_balance", &[], Some(VT::I64)),
 ];
 const INVOKE: u32 = 0;
 const CREATE: u32 = 1;
@@ -61,7 +68,12 @@ const LOOKUP: u32 = 2;
 const EWRITE: u32 = 3;
 const EREAD: u32 = 4;
 const WOUT: u32 = 5;
-const NIMP: u32 = 6;
+const LOG: u32 = 6;
+const BALANCE: u32 = 7;
+const NIMP: u32 = 8;
+const F_AT_DEPTH: u32 = NIMP;
+const F_REC: u32 = NIMP + 3;
+pub const INITIAL_BALANCE: u64 = 1_000_000;
 
 // locals of `recv`: 0 = amount (param), 1 = e (i64), 2 = off (i32), 3 = r (i64), 4 = t (i32), 5 = e2 (i64)
 fn c32(v: u32) -> Op { Op::I32Const(v as i32) }
@@ -77,20 +89,31 @@ fn build_contract(steps: &[Step]) -> Module {
         m.types.push(Sig { params: ps.to_vec(), result: *r });
         m.imports.push(("concordium".into(), name.to_string(), (m.types.len() - 1) as u32));
     }
-    m.types.push(Sig { params: vec![VT::I64], result: Some(VT::I32) }); // 6: entrypoints
-    m.types.push(Sig { params: vec![VT::I32], result: Some(VT::I64) }); // 7: helper
+    m.types.push(Sig { params: vec![VT::I64], result: Some(VT::I32) }); // 8: entrypoints
+    m.types.push(Sig { params: vec![VT::I32, VT::I32], result: Some(VT::I64) }); // 9: at_depth
+    m.types.push(Sig { params: vec![VT::I32], result: Some(VT::I32) }); // 10: rec
     m.mem = Some((1, Some(4)));
     m.data.push((0, b"k".to_vec()));
     m.data.push((16, b"ABCD".to_vec()));
     // transfer payload at 32..72: account address 32 bytes, amount 8 bytes
     m.data.push((32, (0u8..40).collect()));
-    // helper (function 0): one more frame around the invoke; its argument is returned xor-ed in so that a
-    // lost frame or a misplaced return value is visible:  helper(x) = invoke(0,32,40) ^ (x as i64) ^ (x as i64)
+    // at_depth(d, n) (function 0): descend d - 1 more frames, then invoke; right after the resume make n nested
+    // calls (rec(n - 1), result stored at 240); return the response word
     m.funcs.push(Func {
-        ty: 7,
+        ty: 9,
         locals: vec![VT::I64],
-        body: vec![c32(0), c32(32), c32(40), Op::Call(INVOKE), Op::LocalSet(1), Op::LocalGet(1), Op::LocalGet(0), Op::Plain(0xad), Op::Plain(0x85),
-                   Op::LocalGet(0), Op::Plain(0xad), Op::Plain(0x85), Op::End],
+        body: vec![
+            Op::LocalGet(0), c32(1), Op::Plain(0x4a), Op::If(Some(VT::I64)),
+            Op::LocalGet(0), c32(1), Op::Plain(0x6b), Op::LocalGet(1), Op::Call(F_AT_DEPTH),
+            Op::Else,
+            c32(0), c32(32), c32(40), Op::Call(INVOKE), Op::LocalSet(2),
+            Op::LocalGet(1), Op::If(None),
+            c32(240), Op::LocalGet(1), c32(1), Op::Plain(0x6b), Op::Call(F_REC), Op::Mem(0x36, 0, 2),
+            Op::End,
+            Op::LocalGet(2),
+            Op::End,
+            Op::End,
+        ],
     });
     // recv (function 1)
     let mut b: Vec<Op> = vec![];
@@ -99,13 +122,22 @@ fn build_contract(steps: &[Step]) -> Module {
     // grow the memory before the first interrupt and leave a mark in the new page
     b.extend([c32(1), Op::Plain(0x40), Op::Plain(0x1a), c32(65536 + 8), c32(0x5a5a_5a5a), Op::Mem(0x36, 0, 2)]);
     for (i, s) in steps.iter().enumerate() {
-        if s.nested {
-            b.extend([c32(1000 + i as u32), Op::Call(NIMP), Op::LocalSet(3)]);
+        // log the step number, reset the recursion result
+        b.extend([c32(250), c32(i as u32), Op::Mem(0x3a, 0, 0), c32(250), c32(1), Op::Call(LOG), Op::Plain(0x1a)]);
+        b.extend([c32(240), c32(u32::MAX), Op::Mem(0x36, 0, 2)]);
+        if s.depth > 0 {
+            b.extend([c32(s.depth), c32(s.recurse), Op::Call(F_AT_DEPTH), Op::LocalSet(3)]);
         } else {
             b.extend([c32(0), c32(32), c32(40), Op::Call(INVOKE), Op::LocalSet(3)]);
+            if s.recurse > 0 {
+                b.extend([c32(240), c32(s.recurse - 1), Op::Call(F_REC), Op::Mem(0x36, 0, 2)]);
+            }
         }
         b.extend([c32(200), Op::LocalGet(3), Op::Mem(0x37, 0, 3)]);
         out_word(&mut b, 200, 8);
+        b.extend([c32(224), Op::Call(BALANCE), Op::Mem(0x37, 0, 3)]);
+        out_word(&mut b, 224, 8);
+        out_word(&mut b, 240, 4);
         // read through the handle obtained before the interrupt
         b.extend([c32(300), c32(0), Op::Mem(0x36, 0, 2)]);
         b.extend([Op::LocalGet(1), c32(300), c32(4), c32(0), Op::Call(EREAD), Op::LocalSet(4)]);
@@ -129,9 +161,10 @@ fn build_contract(steps: &[Step]) -> Module {
             b.extend([Op::LocalGet(5), c32(400), c32(4), c32(0), Op::Call(EWRITE), Op::Plain(0x1a)]);
         }
     }
+    b.extend([c32(250), c32(255), Op::Mem(0x3a, 0, 0), c32(250), c32(1), Op::Call(LOG), Op::Plain(0x1a)]);
     out_word(&mut b, 65536 + 8, 4);
     b.extend([c32(0), Op::End]);
-    m.funcs.push(Func { ty: 6, locals: vec![VT::I64, VT::I32, VT::I64, VT::I32, VT::I64], body: b });
+    m.funcs.push(Func { ty: 8, locals: vec![VT::I64, VT::I32, VT::I64, VT::I32, VT::I64], body: b });
     // set (function 2): the re-entrant call: k := low 4 bytes of the amount
     let s: Vec<Op> = vec![
         c32(0), c32(1), Op::Call(LOOKUP), Op::LocalSet(1),
@@ -139,7 +172,14 @@ fn build_contract(steps: &[Step]) -> Module {
         Op::LocalGet(1), c32(400), c32(4), c32(0), Op::Call(EWRITE), Op::Plain(0x1a),
         c32(0), Op::End,
     ];
-    m.funcs.push(Func { ty: 6, locals: vec![VT::I64], body: s });
+    m.funcs.push(Func { ty: 8, locals: vec![VT::I64], body: s });
+    // rec(n) (function 3): n more nested calls; returns n
+    m.funcs.push(Func {
+        ty: 10,
+        locals: vec![],
+        body: vec![Op::LocalGet(0), Op::Plain(0x45), Op::If(Some(VT::I32)), c32(0), Op::Else,
+                   Op::LocalGet(0), c32(1), Op::Plain(0x6b), Op::Call(F_REC), c32(1), Op::Plain(0x6a), Op::End, Op::End],
+    });
     m.exports = vec![("c.recv".into(), 1), ("c.set".into(), 2)];
     m
 }
@@ -155,7 +195,7 @@ fn ctx(entry: &str) -> Ctx1 {
             metadata: ChainMetadata { slot_time: Timestamp::from_timestamp_millis(0x0102030405060708) },
             invoker: addr(0x30),
             self_address: ContractAddress { index: 7, subindex: 0 },
-            self_balance: Amount::from_micro_ccd(1_000_000),
+            self_balance: Amount::from_micro_ccd(INITIAL_BALANCE),
             sender: Address::Account(addr(0x70)),
             owner: addr(0x50),
             sender_policies: vec![],
@@ -187,10 +227,14 @@ struct Obs {
     state: Vec<(Vec<u8>, Vec<u8>)>,
     interrupts: usize,
     changed: Vec<bool>,
+    /// logs handed out per section (one per interrupt, then the final one)
+    logs: Vec<String>,
 }
 
 fn run_scenario(art: &Art1, steps: &[Step]) -> Obs {
-    let mut o = Obs { out: "PANIC".into(), rv: vec![], rem: 0, state: vec![], interrupts: 0, changed: vec![] };
+    let mut o = Obs { out: "PANIC".into(), rv: vec![], rem: 0, state: vec![], interrupts: 0, changed: vec![], logs: vec![] };
+    let mut logs_acc: Vec<String> = vec![];
+    let section = |l: &v0::Logs| l.iterate().map(|x| hex(x)).collect::<Vec<_>>().join(",");
     let r = guarded(|| {
         let mut ms = trie::PersistentState::from_iterator(std::iter::empty::<(&[u8], Vec<u8>)>()).thaw();
         let mut step: Result<RR1, String> = start(art, &mut ms, "c.recv", "recv", 0, 2_000_000);
@@ -202,14 +246,16 @@ fn run_scenario(art: &Art1, steps: &[Step]) -> Obs {
                     v1::ReceiveResult::OutOfEnergy { .. } => return ("ooe".into(), vec![], 0, vec![], i, vec![]),
                     v1::ReceiveResult::Trap { error, remaining_energy, .. } => return (format!("trap {:#}", error), vec![], remaining_energy.energy, vec![], i, vec![]),
                     v1::ReceiveResult::Reject { reason, return_value, remaining_energy, .. } => return (format!("reject {}", reason), return_value, remaining_energy.energy, vec![], i, vec![]),
-                    v1::ReceiveResult::Success { return_value, remaining_energy, state_changed, .. } => {
+                    v1::ReceiveResult::Success { return_value, remaining_energy, state_changed, logs, .. } => {
+                        logs_acc.push(section(&logs));
                         let mut loader = new_loader();
                         let ps = ms.freeze(&mut loader, &mut trie::EmptyCollector);
                         let mut kv: Vec<(Vec<u8>, Vec<u8>)> = ps.into_iterator(&mut loader).collect();
                         kv.sort();
                         return ("success".into(), return_value, remaining_energy.energy, kv, i, vec![state_changed]);
                     }
-                    v1::ReceiveResult::Interrupt { remaining_energy, config, .. } => {
+                    v1::ReceiveResult::Interrupt { remaining_energy, config, logs, .. } => {
+                        logs_acc.push(section(&logs));
                         if i >= steps.len() { return ("unexpected-interrupt".into(), vec![], 0, vec![], i, vec![]); }
                         let s = &steps[i];
                         i += 1;
@@ -222,8 +268,8 @@ fn run_scenario(art: &Art1, steps: &[Step]) -> Obs {
                         }
                         use v1::InvokeFailure::*;
                         let resp = match s.resp {
-                            0 => v1::InvokeResponse::Success { new_balance: Amount::from_micro_ccd(999), data: None },
-                            1 => v1::InvokeResponse::Success { new_balance: Amount::from_micro_ccd(998), data: Some(s.data.clone()) },
+                            0 => v1::InvokeResponse::Success { new_balance: Amount::from_micro_ccd(s.balance), data: None },
+                            1 => v1::InvokeResponse::Success { new_balance: Amount::from_micro_ccd(s.balance), data: Some(s.data.clone()) },
                             13 => v1::InvokeResponse::Failure { kind: ContractReject { code: s.code, data: s.data.clone() } },
                             k => v1::InvokeResponse::Failure { kind: match k - 1 {
                                 1 => InsufficientAmount, 2 => NonExistentAccount, 3 => NonExistentContract, 4 => NonExistentEntrypoint,
@@ -238,20 +284,22 @@ fn run_scenario(art: &Art1, steps: &[Step]) -> Obs {
     });
     match r {
         Err(p) => { o.out = format!("PANIC {}", p); o }
-        Ok((out, rv, rem, state, interrupts, changed)) => Obs { out, rv, rem, state, interrupts, changed },
+        Ok((out, rv, rem, state, interrupts, changed)) => Obs { out, rv, rem, state, interrupts, changed, logs: logs_acc },
     }
 }
 
 /// the scenario in the token format of ocaml/driver_c13.ml (command ENG)
 fn tokens(steps: &[Step]) -> String {
     let h4 = |w: &Option<u32>| w.map(|x| hex(&x.to_le_bytes())).unwrap_or_else(|| "-".into());
-    let mut t = vec![format!("ENG {}", steps.len())];
+    let mut t = vec![format!("ENG {} {}", INITIAL_BALANCE, steps.len())];
     for s in steps {
-        t.push(match s.resp { 0 => "s".into(), 1 => format!("d:{}", hex(&s.data)), 13 => format!("r:{}:{}", s.code, hex(&s.data)), k => format!("f:{}", k - 1) });
+        t.push(match s.resp { 0 => format!("s:{}", s.balance), 1 => format!("d:{}:{}", s.balance, hex(&s.data)), 13 => format!("r:{}:{}", s.code, hex(&s.data)), k => format!("f:{}", k - 1) });
         t.push((s.upd as u8).to_string());
         t.push(h4(&s.reentrant_write));
         t.push((s.refresh as u8).to_string());
         t.push(h4(&s.contract_write));
+        t.push(s.depth.to_string());
+        t.push(s.recurse.to_string());
     }
     t.join(" ")
 }
@@ -263,12 +311,16 @@ pub fn run(seed: u64, n: u64) {
     for ci in 0..n {
         let mut r = Rng::new(seed.wrapping_mul(9_000_011).wrapping_add(ci));
         let k = r.range(1, 4) as usize;
+        // a third of the scenarios probe the call-depth budget (MAX_ACTIVATION_FRAMES = 1024) right after a resume
+        let boundary: Option<usize> = if ci % 3 == 0 { Some(if r.chance(2, 3) { 0 } else { r.below(k as u64) as usize }) } else { None };
         let steps: Vec<Step> = (0..k)
-            .map(|_| {
+            .map(|si| {
                 let resp = match r.below(10) { 0..=2 => 0u8, 3..=5 => 1, 6 | 7 => 13, _ => r.range(2, 12) as u8 };
                 let upd = resp < 2 && r.chance(1, 2);
                 Step {
-                    nested: r.chance(1, 2),
+                    depth: if boundary == Some(si) { *r.pick(&[1u32, 2, 5]) } else { *r.pick(&[0u32, 0, 1, 1, 2, 5]) },
+                    recurse: 0,
+                    balance: r.below(1 << 40),
                     resp,
                     data: { let n = r.range(0, 4) as usize; r.bytes(n) },
                     code: -(r.range(1, 1 << 20) as i32) - if r.chance(1, 4) { i32::MAX - (1 << 21) } else { 0 },
@@ -279,9 +331,16 @@ pub fn run(seed: u64, n: u64) {
                 }
             })
             .collect();
+        let mut steps = steps;
+        for (si, s) in steps.iter_mut().enumerate() {
+            s.recurse = if boundary == Some(si) {
+                let d = s.depth;
+                *r.pick(&[1022u32, 1023, 1024, 1025, 1024 - d - 1, 1024 - d, 1024 - d + 1])
+            } else { *r.pick(&[0u32, 0, 1, 3]) };
+        }
         for s in &steps {
             kinds[if s.upd { 0 } else { 1 }] += 1;
-            if s.nested { kinds[2] += 1 }
+            if s.depth > 0 { kinds[2] += 1 }
             if s.reentrant_write.is_some() { kinds[3] += 1 }
             if s.refresh { kinds[4] += 1 }
             if s.resp >= 2 { kinds[5] += 1 }
@@ -311,9 +370,6 @@ pub fn run(seed: u64, n: u64) {
         let a = run_scenario(&fresh, &steps);
         runs += 1;
         interrupts += a.interrupts as u64;
-        if a.out != "success" || a.interrupts != steps.len() {
-            viol.push(json!({"kind": "engine-scenario-did-not-complete", "outcome": a.out, "interrupts": a.interrupts}));
-        }
         let k_final = a.state.iter().find(|(k, _)| k == b"k").map(|(_, v)| hex(v));
         let b = run_scenario(&fresh, &steps);
         runs += 1;
@@ -323,7 +379,8 @@ pub fn run(seed: u64, n: u64) {
             runs += 1;
             if a != c { viol.push(json!({"kind": "engine-reloaded-differs", "fresh": format!("{:?}", a).chars().take(300).collect::<String>(), "reloaded": format!("{:?}", c).chars().take(300).collect::<String>()})); }
         }
-        println!("{}", json!({"case": case, "eng": tokens(&steps), "out": a.out, "rv": hex(&a.rv), "final": k_final, "viol": viol}));
+        println!("{}", json!({"case": case, "eng": tokens(&steps), "out": a.out, "rv": hex(&a.rv), "final": k_final, "logs": a.logs.join("/"),
+                              "interrupts": a.interrupts, "boundary": boundary.is_some(), "viol": viol}));
     }
     println!("{}", json!({"engine_stats": {"scenarios": n, "runs": runs, "interrupts": interrupts, "steps_state_updated": kinds[0], "steps_state_unchanged": kinds[1],
              "nested_invokes": kinds[2], "reentrant_writes": kinds[3], "handle_refreshes": kinds[4], "failure_responses": kinds[5]}}));
